@@ -60,6 +60,7 @@ def main():
         with open(im) as f:
             t = f.read()
         t2 = re.sub(r'(?m)^(\s*)"sync"\s*$', r'\1sync "github.com/transparency-dev/witness/verifmc/vsync"', t)
+        t2 = re.sub(r'(?m)^(\s*)"sync/atomic"\s*$', r'\1atomic "github.com/transparency-dev/witness/verifmc/vsync/vatomic"', t2)
         if t2 != t:
             replace[im] = write("inmemory.go", t2)
 
@@ -72,6 +73,10 @@ def main():
         s = os.path.join(SRC, name)
         if os.path.exists(s) and os.path.isdir(os.path.join(REPO, rel)):
             replace[os.path.join(REPO, rel, "zz_verif_export.go")] = s
+
+    # 4b. the binary under test reads its log list from a file (C06 binary tier).
+    if os.path.isdir(os.path.join(REPO, "cmd/omniwitness")):
+        replace[os.path.join(REPO, "cmd/omniwitness", "zz_verif_main.go")] = os.path.join(SRC, "zz_verif_main_omniwitness.go")
 
     # 5. go build -overlay does not notice a changed //go:embed file of a package
     #    that has overlaid files (measured: the stale compiled package is reused).
